@@ -294,3 +294,62 @@ def c07_boxes(e):
     if mode == 2 and ws[0] != fixed:
         return False
     return True
+
+
+# --- the same table rendered inside other renderables (inherited options must not leak into its cells) ----------------------
+from rich.align import Align  # noqa: E402
+from rich.padding import Padding  # noqa: E402
+from rich.panel import Panel  # noqa: E402
+from rich.table import Table as _Table  # noqa: E402
+
+_NEST_CELLS = [("abcdefghijklmnop qrs", "x1"), ("tuv", "a longer second cell")]
+
+
+def _nest_inner(fixed):
+    t = _Table(box=box_mod.ASCII, show_header=False, show_lines=True, padding=0, pad_edge=False)
+    t.add_column(overflow="fold", width=6 if fixed else None)
+    t.add_column(overflow="fold", width=8 if fixed else None)
+    for row in _NEST_CELLS:
+        t.add_row(*row)
+    return t
+
+
+def _nest_holder(kind, inner):
+    if kind in (0, 1, 2):
+        outer = _Table.grid() if kind < 2 else _Table(box=None, show_header=False, padding=0)
+        outer.add_column(no_wrap=(kind != 1), justify="left" if kind < 2 else "right")
+        outer.add_column()
+        outer.add_row(inner, " <- nested")
+        return outer
+    if kind == 3:
+        return Panel(inner)
+    if kind == 4:
+        return Padding(Align.center(inner), (0, 2))
+    grid = _Table.grid()
+    grid.add_column(no_wrap=True, overflow="ellipsis")
+    grid.add_row(Panel(inner, expand=False))
+    return grid
+
+
+@symx("C07-render-nested-contexts", timeout=900, kind="C+S", functions=F_T7 + ["rich/console.py:ConsoleOptions.update"],
+      bounds="a 2x2 ASCII-box table with two fold columns (fixed widths 6/8 or free) rendered inside {grid column with no_wrap, grid "
+             "column without, right-justified no_wrap column of a box-less table, Panel, Padding(Align.center), no_wrap+ellipsis "
+             "grid column holding a Panel} at outer widths 24..60 (solver-enumerated, native): the lines of the inner table cut "
+             "out of the output are exactly the lines the same table renders on its own at that width - options of the "
+             "enclosing context (no_wrap, overflow, justify) do not reach its cells")
+def c07_nested(e):
+    fixed = bool(e.mkbool("fixed_widths"))
+    kind = int(e.mk("holder", 0, 5))
+    w = int(e.mk("width", 24, 60))
+    c = cat.console()
+    lines = cat.render_lines(c, _nest_holder(kind, _nest_inner(fixed)), w)
+    inner_lines = []
+    for line in lines:
+        idx = [i for i, ch in enumerate(line) if ch in "+|"]
+        if idx:
+            inner_lines.append(line[idx[0]:idx[-1] + 1])
+    if not inner_lines:
+        return False
+    wi = len(inner_lines[0])
+    alone = cat.render_lines(c, _nest_inner(fixed), wi)
+    return inner_lines == [l.rstrip() for l in alone]
